@@ -3,6 +3,7 @@ package main
 import (
 	"bytes"
 	"fmt"
+	stdhtml "html"
 	"os"
 	"path/filepath"
 	"regexp"
@@ -188,7 +189,7 @@ var c19AttrVals = []string{
 	`a > b`, `a &amp;&amp; b`, `x &lt; 1 ? 'y' : 'n'`, `say &quot;hi&quot;`, `it's`, `{ on: a > 1, off: !b }`, "multi\n    line   value", `  padded  `,
 	`{{ v }} and &amp; more`, `a&amp;b=c`, `&copy; 2026`, `x >= 1 &amp;&amp; y <= 2`, `[1, 2, 3]`, `fn('a', &quot;b&quot;)`, `100%`, `#/path?a=1&amp;b=2`,
 }
-var c19Mustaches = []string{`{{ a < b }}`, `{{ a > b && c }}`, `{{ x | upper }}`, `{{ a ? "<" : '&' }}`, `{{ items[0].name }}`, `{{  spaced   out  }}`, `{{ a }}{{ b }}`, `{{ "&lt;" }}`, `{{ n >= 10 ? "10+" : n }}`}
+var c19Mustaches = []string{`{{ a < b }}`, `{{ a > b && c }}`, `{{ x | upper }}`, `{{ a ? "<" : '&' }}`, `{{ items[0].name }}`, `{{  spaced   out  }}`, `{{ a }}{{ b }}`, `{{ "&lt;" }}`, `{{ "&amp;lt;" }}`, `{{ a &amp;&amp; b }}`, `{{ n >= 10 ? "10+" : n }}`}
 
 func c19Text(r *Rng) string {
 	var ws []string
@@ -319,6 +320,52 @@ func runC19(r *Run) {
 			body = "---\n# comment --- inside\nx: 1\n---\n\n" + body + "\n"
 		}
 		srcs = append(srcs, src{fmt.Sprintf("gen%d", i), body, "generated"})
+	}
+	// ---- the layout model, byte for byte (fragments inside the model's vocabulary) ----
+	r.Imports = []string{"Model.Tok", "Model.Fmt"}
+	nm := 2500
+	if r.Thorough() {
+		nm = 25000
+	}
+	for i := 0; i < nm; i++ {
+		body := c19Block(rr, 1+rr.Intn(3))
+		if strings.Contains(body, "<!--") || strings.Contains(body, "<pre") || strings.Contains(body, "<script") || strings.Contains(body, "<style") || strings.Contains(body, "&nbsp;") || strings.Contains(body, "<template") {
+			continue
+		}
+		out, err := c19Format(body)
+		if err != nil {
+			continue
+		}
+		nodes, _ := c19Parse(strings.TrimLeft(body, "\n"))
+		// an expression that holds a decodable character reference is written re-encoded; the model copies
+		// expressions byte for byte and does not carry the table of named references
+		decodable := false
+		var walk func(n *html.Node)
+		walk = func(n *html.Node) {
+			if n.Type == html.TextNode {
+				for _, m := range c19MustacheRe.FindAllString(n.Data, -1) {
+					if stdhtml.UnescapeString(m) != m {
+						decodable = true
+					}
+				}
+			}
+			for c := n.FirstChild; c != nil; c = c.NextSibling {
+				walk(c)
+			}
+		}
+		for _, n := range nodes {
+			walk(n)
+		}
+		if decodable {
+			r.Count("model-skip:expression-with-reference")
+			continue
+		}
+		forest, ok := c02CoqForestX(nodes, false)
+		if !ok || !c19Stable(body) {
+			continue
+		}
+		r.Case("layout", fmt.Sprintf("{| c_kind := 0; c_out := []; c_dom := %s |}", forest), A(out), map[string]any{"template": body, "formatted": out}, nil, strings.ContainsAny(body, `&"{`))
+		r.Case("relayout", fmt.Sprintf("{| c_kind := 1; c_out := %s; c_dom := [] |}", coqBytes(out)), A(out), map[string]any{"template": body, "formatted": out}, nil, strings.ContainsAny(body, `&"{`))
 	}
 	for _, s := range srcs {
 		fm, body := c19Split(s.text)
